@@ -386,6 +386,10 @@ def c08_job(chk, rng, i):
     inputs = []
     for k in range(12):
         srcs = [g.make_input(case, ctx, maxlen=80) for _ in range(nsrc)]
+        if nsrc > 1 and k % 3 == 2:
+            # very short sources: yyinput() (and yymore/yyless) meet the end of a source, and
+            # of the next one, within a single action
+            srcs = [x[:rng.rint(1, 4)] for x in srcs[:-1]] + [srcs[-1]]
         inputs.append({"sources": srcs, "sched": rng.choice([[0], [1], [1], [2, 3], [7]])})
     case["wrap"] = [("next", j) for j in range(1, nsrc)]
     case["budget"] = {"events": 700}
